@@ -52,6 +52,10 @@ def record(t, d):
     return struct.pack("<qII", t, zlib.crc32(d) & 0xffffffff, len(d) & 0xffffffff) + d
 
 
+def hdr0(rng, t, crc):
+    return struct.pack("<qII", t, crc, 0)
+
+
 def split_ops(line):
     ops, cur = [], []
     for w in line.split():
@@ -105,6 +109,9 @@ def gen_old(rng, sid, now, big):
             pos = rng.choice([q for q in range(8, len(rec)) if not 13 <= q <= 15])
             rec[pos] ^= 1 << rng.randrange(8)
         return [f"put {sid} {hexs(bytes(rec))}"], len(rec) >= 16
+    if r < 0.84:                                                      # header says size 0 but the crc field is not that of ""
+        g = hdr0(rng, t0, rng.getrandbits(32) | 1) + rb(rng, rng.choice((0, 0, 5, 600)))
+        return [f"put {sid} {hexs(g)}"], True
     if r < 0.9:                                                       # garbage with a plausible header (size kept small)
         g = struct.pack("<qII", t0, rng.getrandbits(32), rng.choice((0, 1, 5, 40, 600, 70000))) + rb(rng, rng.randrange(0, 700))
         return [f"put {sid} {hexs(g)}"], True
@@ -115,7 +122,7 @@ def gen_old(rng, sid, now, big):
     return [f"put {sid} {hexs(g)}"], (n == 0 or n >= 16)
 
 
-def crash_case(rng, big, S=None, d=None, k=None, j=None, mask=None, oldops=None, wf=True, now=None):
+def crash_case(rng, big, S=None, d=None, k=None, j=None, mask=None, oldops=None, wf=True, now=None, kill=None):
     sid = rng.choice(SIDS)
     if now is None:
         now = rng.choice((1000, 1000, 1000, 1, 1700000000, 0, -5))
@@ -153,7 +160,9 @@ def crash_case(rng, big, S=None, d=None, k=None, j=None, mask=None, oldops=None,
     ops += oldops
     ops.append(f"probe {sid}")
     ip = len(ops) - 1
-    ops.append(f"{'ksave' if rng.random() < 0.2 else 'csave'} {sid} {t} {hexs(d)} {k} {j} {S} {mask}")
+    if kill is None:
+        kill = rng.random() < 0.2
+    ops.append(f"{'ksave' if kill else 'csave'} {sid} {t} {hexs(d)} {k} {j} {S} {mask}")
     ops.append("ls")
     if rng.random() < 0.25:
         ops.append("gc")
@@ -193,6 +202,50 @@ def crc_case(rng):
     return " ; ".join(ops), {"kind": "crc"}
 
 
+def hdr0_case(rng):
+    """files whose header says size 0: the genuinely saved empty session (crc field 0) must load; any other crc field is a damaged
+    or foreign file and must be refused and removed — with or without bytes behind the header"""
+    now = rng.choice((1000, 1000, 1700000000))
+    sid = rng.choice(SIDS)
+    t = now + rng.choice((0, 1, 77, 10 ** 6, 2 ** 40))
+    r = rng.random()
+    if r < 0.2:
+        f = hdr0(rng, t, 0)                                            # what save(sid, t, "") writes
+    elif r < 0.5:
+        f = hdr0(rng, t, rng.choice((1, 0xdeadbeef, 0xffffffff, 0x80000000, rng.getrandbits(32) | 1)))
+    elif r < 0.7:                                                      # a saved record whose size field got zeroed
+        rec = bytearray(record(t, rb(rng, rng.randrange(1, 60))))
+        rec[12:16] = b"\0\0\0\0"
+        f = bytes(rec)
+    elif r < 0.85:
+        f = hdr0(rng, t, rng.getrandbits(32) | 1) + rb(rng, rng.randrange(1, 40))
+    else:
+        f = hdr0(rng, t, 0) + rb(rng, rng.randrange(1, 40))            # empty session with leftover tail of a longer earlier value
+    ops = [f"now {now}", f"put {sid} {hexs(f)}", f"probe {sid}", "ls"]
+    if rng.random() < 0.4:
+        ops.append("gc")
+    ops += [f"load {sid}", "ls"]
+    return " ; ".join(ops), {"kind": "hdr0"}
+
+
+def tail_tear_cases(rng):
+    """values just above 64 KiB over an earlier value of equal or greater length, torn behind data offset 65536 (byte prefix of the
+    data write, or a lost 512-byte sector there): a checksum that does not cover the tail would let a mixture through"""
+    out = []
+    for n, oldn in ((65537 + rng.randrange(1100, 2500), None), (70001, 70001 + rng.randrange(1, 3000))):
+        oldn = oldn or n
+        d = rb(rng, n)
+        old = [f"save SID 1500 {hexs(rb(rng, oldn))}"]
+        for j in (65536, rng.randrange(65537, n), n - 1):
+            out.append(crash_case(rng, 0, S=512, d=d, k=1, j=j, mask="all", oldops=old, wf=True, now=1000, kill=False))
+        nsec = (16 + max(n, oldn) + 511) // 512
+        first_tail = (16 + 65536 + 511) // 512                          # first sector lying entirely behind data offset 65536
+        lost = rng.randrange(first_tail, (16 + n) // 512)
+        keep = ",".join(str(i) for i in range(nsec) if i != lost)
+        out.append(crash_case(rng, 0, S=512, d=d, k=2, j=0, mask=keep, oldops=old, wf=True, now=1000, kill=False))
+    return out
+
+
 def gen_name(rng):
     r = rng.random()
     hexd = "0123456789abcdefABCDEF"
@@ -223,8 +276,10 @@ def gen_content(rng, now):
         return (struct.pack("<q", rng.choice((tf, tp))) + rb(rng, 12))[:rng.choice((0, 1, 7, 8, 9, 12, 15))]
     if r < 0.7:
         return struct.pack("<q", rng.choice((-1, -2 ** 63, 2 ** 63 - 1, 0, now))) + struct.pack("<II", 0, 0)
-    if r < 0.8:
+    if r < 0.76:
         return b""
+    if r < 0.84:                                                      # size field 0, crc field arbitrary (0 = a real empty session)
+        return hdr0(rng, rng.choice((tf, tp)), rng.choice((0, 1, 0xdeadbeef, rng.getrandbits(32)))) + rb(rng, rng.choice((0, 0, 9)))
     g = bytearray(rb(rng, rng.randrange(8, 60)))
     if len(g) >= 16:
         g[12:16] = struct.pack("<I", rng.choice((0, 2, 30, 100000)))
@@ -339,6 +394,9 @@ def gen_cases(c, scale):
         cases.append(crash_case(rng, big, S=512, d=rb(rng, n), k=1, j=n - 3, mask="all", oldops=[f"save SID 1500 {hexs(rb(rng, 100))}"], wf=True, now=1000))
     for _ in range(12 * scale):
         cases.append(adv_case(rng))
+    cases += tail_tear_cases(rng)
+    for _ in range(150 * scale):
+        cases.append(hdr0_case(rng))
     for _ in range(60 * scale):
         cases.append(crc_case(rng))
     for _ in range(800 * scale):
@@ -363,6 +421,7 @@ def judge(c, model, cases, metas, out_i):
         now = 0
         saved = {}
         tainted = set()
+        content = {}          # name -> hex of the file as last seen (put / ls); unknown after a save until the next ls
         # the history predicate needs the theorem's hypotheses (clock > 0, atomic header, well-formed earlier file, S >= 16)
         hist = meta.get("kind") in ("seq", "gc") or (meta.get("kind") == "crash" and meta["judge"])
         for n, (op, a) in enumerate(zip(ops, outs)):
@@ -373,11 +432,20 @@ def judge(c, model, cases, metas, out_i):
                     bad.append((k, f"crc32_calc differs from zlib.crc32 (python) on {op[1][:80]}: {a}"))
             elif op[0] == "now":
                 now = int(op[1])
+            elif op[0] == "ls":
+                content = dict(e.split(":") for e in a.split(",")) if a not in ("-", "") and ":" in a else {}
             elif op[0] == "put":
                 tainted.add(op[1])
+                content[op[1]] = op[2]
+            elif op[0] == "probe":
+                if a.startswith("ok ") and op[1] in content:
+                    _, t, h = a.split()
+                    jl.append((k, f"J sound {now} {content[op[1]]} {t} {h}"))
             elif op[0] in ("save", "csave", "ksave"):
                 saved.setdefault(op[1], set()).add((int(op[2]), op[3]))
+                content.pop(op[1], None)
             elif op[0] == "remove":
+                content.pop(op[1], None)
                 if n + 1 < len(ops) and ops[n + 1][0] == "ls":
                     names = [e.split(":")[0] for e in outs[n + 1].split(",")] if outs[n + 1] != "-" else []
                     if op[1] in names:
@@ -386,6 +454,8 @@ def judge(c, model, cases, metas, out_i):
                 njudged += 1
                 if a.startswith("ok "):
                     _, t, h = a.split()
+                    if op[1] in content:
+                        jl.append((k, f"J sound {now} {content[op[1]]} {t} {h}"))
                     if int(t) < now:
                         bad.append((k, f"load returned a session past its deadline ({t} < now {now})"))
                     if hist and op[1] not in tainted and (int(t), h) not in saved.get(op[1], set()):
